@@ -2,6 +2,8 @@ package checks
 
 import (
 	"fmt"
+	"github.com/simpleiot/simpleiot/client"
+	"github.com/simpleiot/simpleiot/data"
 	"time"
 
 	"github.com/nats-io/nats.go"
@@ -13,6 +15,36 @@ func init() { Registry["C03"] = runC03 }
 
 // hashCheck walks the tree and compares every reported hash with the
 // from-scratch Merkle hash. A mismatch is confirmed on a second identical walk.
+// localHashCheck compares the stored hash of one placement with the hash of its own points and the stored
+// hashes of its children (deleted ones included). It tells nothing about the levels below.
+func localHashCheck(nc *nats.Conn, parent, id string) (string, error) {
+	ns, err := client.GetNodes(nc, parent, id, "", true)
+	if err != nil {
+		return "", err
+	}
+	if len(ns) != 1 {
+		return "", fmt.Errorf("placement %s/%s: %d nodes returned", parent, id, len(ns))
+	}
+	kids, err := client.GetNodes(nc, id, "all", "", true)
+	if err != nil {
+		return "", err
+	}
+	var h uint32
+	for _, pt := range ns[0].Points {
+		h ^= vlib.RefCRC(pt)
+	}
+	for _, pt := range ns[0].EdgePoints {
+		h ^= vlib.RefCRC(pt)
+	}
+	for _, k := range kids {
+		h ^= k.Hash
+	}
+	if h != ns[0].Hash {
+		return fmt.Sprintf("placement %s/%s: stored hash %08x, hash of its points and of the stored hashes of its %d children %08x", parent, id, ns[0].Hash, len(kids), h), nil
+	}
+	return "", nil
+}
+
 func hashCheck(nc *nats.Conn) (mismatch string, walk map[string]vlib.Placement, err error) {
 	for attempt := 0; attempt < 3; attempt++ {
 		w, err := vlib.Walk(nc)
@@ -53,11 +85,113 @@ func adminReq(nc *nats.Conn, subj string) (string, error) {
 func runC03(tier string, _ []string) int {
 	c := vlib.NewCtx("C03", tier, "exploration")
 	vlib.SetPortBlock(3)
-	c.SetRule("per case a fresh instance and a PRNG history of 20-120 acknowledged graph operations (every eighth history on top of a chain 35-120 nodes deep) (create edge-first / points-first, node-point writes incl. -0.0, stale and duplicate writes, edge-point updates, delete, undelete, mirror incl. above populated subtrees and diamonds, move); after every operation (every 5th in thorough) the whole tree is walked and every placement's reported hash is compared with a from-scratch Merkle hash computed from the walk's points only; at the end admin.storeVerify must not complain and admin.storeMaint must change no hash. distinct = (operation kind, graph features present: mirror/diamond/deleted edge/points-first)")
+	c.SetRule("per case a fresh instance and a PRNG history of 20-120 acknowledged graph operations (every eighth history on top of a chain 35-120 nodes deep) (create edge-first / points-first, node-point writes incl. -0.0, stale and duplicate writes, edge-point updates, delete, undelete, mirror incl. above populated subtrees and diamonds, move); after every operation (every 5th in thorough) the whole tree is walked and every placement's reported hash is compared with a from-scratch Merkle hash computed from the walk's points only; at the end admin.storeVerify must not complain and admin.storeMaint must change no hash. One more instance holds a node placed below 100-160 parents (thorough tier: 1040-1160); hashes are compared while the placements are made (at the 991st, 1011th and last), after a child is created below it, after point writes to it and to the child and after one placement is deleted. distinct = (operation kind, graph features present: mirror/diamond/deleted edge/points-first)")
 	c.Assume("the from-scratch oracle subsumes 'equal content gives equal hash' and 'a change reaches every ancestor': both histories/ancestors are compared with the same function of content")
 	c.Assume("one instance per history, harness is the only writer; node manager start-up writes are awaited (DESIGN 1.6)")
 	nHist := c.N(40, 600)
 	every := c.N(1, 5)
+	// ---- scale: one node placed below more than a thousand parents (a shared device shown in every group);
+	// a change below it has a thousand ways up, and the root's hash must follow every time
+	wide := make(chan struct{})
+	go func() {
+		defer close(wide)
+		r := vlib.NewR(c.Seed, "c03wide", 0)
+		in, err := vlib.StartInstance(vlib.InstCfg{ID: "c03-wide"})
+		if err != nil {
+			c.Inconclusive(err.Error())
+			return
+		}
+		defer in.Stop()
+		nc, err := in.Connect()
+		if err != nil {
+			c.Inconclusive(err.Error())
+			return
+		}
+		d := newGdriver(r, nc, in.RootID, "wd")
+		nG := 1040 + r.Intn(120)
+		if tier != "thorough" {
+			nG = 100 + r.Intn(60) // (every further placement costs the store a walk over all earlier ones: a thousand take minutes)
+		}
+		var groups []string
+		for k := 0; k < nG; k++ {
+			g, err := d.create(in.RootID, "group", false)
+			if err != nil {
+				c.Violate("store:legal-write-refused", err.Error(), map[string]any{"stage": "wide", "seed": c.Seed})
+				return
+			}
+			groups = append(groups, g)
+		}
+		var x string
+		placedUpTo := 0
+		check := func(after string) bool {
+			// (a walk of this graph takes a minute: the stored hash of a placement is compared with the hash of
+			// its own points and the stored hashes of its children - at the root, at the node under its first,
+			// last and some other parents, and at those parents; the whole walk is left to the thorough tier)
+			bad := ""
+			var err error
+			if tier == "thorough" && after == "after one of its placements was deleted" {
+				var w map[string]vlib.Placement
+				bad, w, err = hashCheck(nc)
+				c.Count("hash_comparisons", int64(len(w)))
+			} else {
+				places := [][2]string{{"root", in.RootID}}
+				for _, gi := range []int{0, len(groups) - 1, len(groups) / 2, r.Intn(len(groups)), r.Intn(len(groups))} {
+					places = append(places, [2]string{in.RootID, groups[gi]})
+					if x != "" && gi < placedUpTo {
+						places = append(places, [2]string{groups[gi], x})
+					}
+				}
+				for _, pl := range places {
+					var b string
+					if b, err = localHashCheck(nc, pl[0], pl[1]); err != nil || b != "" {
+						bad = b
+						break
+					}
+					c.Count("hash_comparisons", 1)
+				}
+			}
+			if err != nil {
+				c.Inconclusive("wide: read failed: " + err.Error())
+				return false
+			}
+			if bad != "" {
+				c.Violate("hash:stored-differs-from-merkle:node-below-a-thousand-parents", fmt.Sprintf("one node below %d parents, %s: %s", nG, after, bad), map[string]any{"stage": "wide", "seed": c.Seed, "parents": nG, "last_ops": d.Log[max0(len(d.Log)-6):]})
+				return false
+			}
+			return true
+		}
+		if x, err = d.create(groups[0], "variable", false); err != nil {
+			c.Violate("store:legal-write-refused", err.Error(), map[string]any{"stage": "wide", "seed": c.Seed})
+			return
+		}
+		placedUpTo = 1
+		for k := 1; k < nG; k++ {
+			if e, err := d.sendEdge(x, groups[k], data.Points{{Type: data.PointTypeTombstone, Time: d.now()}, {Type: data.PointTypeNodeType, Text: "variable"}}); err != nil || e != "" {
+				c.Violate("store:legal-write-refused", fmt.Sprintf("placement %d of one node: %v %s", k+1, err, e), map[string]any{"stage": "wide", "seed": c.Seed})
+				return
+			}
+			placedUpTo = k + 1
+			if (k == 990 || k == 1010 || k == nG-1) && !check(fmt.Sprintf("after placement %d", k+1)) {
+				return
+			}
+		}
+		y, err := d.create(x, "variable", false)
+		if err != nil || !check("after a child was created below it") {
+			return
+		}
+		if e, err := d.sendNode(y, d.somePoints(2)); err != nil || e != "" || !check("after a point write to its child") {
+			return
+		}
+		if e, err := d.sendNode(x, d.somePoints(2)); err != nil || e != "" || !check("after a point write to the node") {
+			return
+		}
+		if e, err := d.sendEdge(x, groups[nG-7], data.Points{{Type: data.PointTypeTombstone, Time: d.now(), Value: 1}}); err != nil || e != "" || !check("after one of its placements was deleted") {
+			return
+		}
+		c.Count("wide_graphs_checked", 1)
+		c.Distinct(fmt.Sprintf("one node below %d parents", nG/100*100))
+	}()
+	defer func() { <-wide }()
 	vlib.Parallel(nHist, 6, func(i int) {
 		r := vlib.NewR(c.Seed, "c03", i)
 		in, err := vlib.StartInstance(vlib.InstCfg{ID: fmt.Sprintf("c03-%d", i)})
@@ -144,7 +278,15 @@ func runC03(tier string, _ []string) int {
 			c.Sample(map[string]any{"case": i, "ops": d.Log[:min(len(d.Log), 12)], "placements": len(after)})
 		}
 	})
+	<-wide
 	c.Require("hash_comparisons", 500)
 	c.Require("maint_noop_checks", 5)
 	return c.Finish()
+}
+
+func max0(a int) int {
+	if a < 0 {
+		return 0
+	}
+	return a
 }
